@@ -185,6 +185,9 @@ var vC14Faulty = []string{
 	// key / value where the statement form forbids them
 	"remove key", "remove value", "remove 'a', key", "remove upper(key)", "remove 'a' + value", "put ('a', value)", "put (value, 'a')",
 	"put ('a', upper(value))", "put ('a', 'b' + value)", "put ('a', 'x'), ('b', value)",
+	// DELETE needs a Boolean WHERE like SELECT; IN over operands it cannot compare
+	"delete where 1", "delete where 'a'", "delete where key", "delete where upper(key)", "delete where int(value) + 1",
+	"select * where (key = 'a') in (true, false)", "select * where is_int(value) in (true)", "select key, is_int(value) in (false) where key = 'a'",
 	// wrong kinds in put/remove
 	"put ('a', true)", "put (is_int('1'), 'a')", "remove true", "put ('a', split('a', ','))",
 }
@@ -215,6 +218,10 @@ var vC14Contexts = []vC14Ctx{
 	{"select * where @ & key = 'a'", 'b'}, {"select * where key = 'a' | @", 'b'}, {"select * where is_int(value) and @", 'b'},
 	{"select * where @ or key ^= 'a'", 'b'}, {"select key, @ where key ^= 'a'", 'b'}, {"delete where @", 'b'},
 	{"select * where (@) = true", 'b'},
+	// behind an operand the expression optimizer folds away, and as the left operand of a field access
+	{"select * where false & @", 'b'}, {"select * where true | @", 'b'}, {"select * where key = 'a' & (false & @)", 'b'},
+	{"select * where false & @ = 'a'", 't'}, {"select * where json(@)['a'] = 'x'", 't'}, {"select * where split(@, ',')[0] = 'x'", 't'},
+	{"select json(@)['a']['b'] where key = 'a'", 't'}, {"select * where true | strlen(@) = 1", 't'},
 	{"select * where @ = 'a'", 't'}, {"select * where 'a' = @", 't'}, {"select * where upper(@) = 'A'", 't'},
 	{"select * where key in ('k', @)", 't'}, {"select * where key in (@, 'k')", 't'}, {"select * where key between 'a' and @", 't'},
 	{"select * where key between @ and 'z'", 't'}, {"select @ where key = 'a'", 't'}, {"select key, @ as f where key = 'a'", 't'},
